@@ -1,3 +1,227 @@
+import MgProof.C05.Lemmas
 import MgModel.C05.TsPool
-namespace MgProof.C05
-end MgProof.C05
+/-! Invariant of the repaired thread-safe pool model (`MgModel.C05.Ts.step`) for histories
+that are legal so far (`illegal = 0`): the ring of free pointers between `alloc_idx` and
+`free_idx` holds pairwise distinct blocks that are in the pool, `cached_free_pos` lies
+between them, and the two spinlocks serialise allocators / freers. -/
+namespace MgProof.C05.Ts
+open MgModel.Conc MgModel.C05 MgModel.C05.Ts
+
+/-- successor in the ring, without `%` -/
+def nxt (C i : Nat) : Nat := if i + 1 = C then 0 else i + 1
+
+/-- distance from `a` forward to `x` in the ring, in `1..C` -/
+def dist (C a x : Nat) : Nat := if a < x then x - a else x + C - a
+
+/-- slot `j` is one of the `c` slots starting at `a` -/
+def valid (C a c j : Nat) : Prop := (a ≤ j ∧ j < a + c) ∨ j + C < a + c
+
+/-- thread holds `alloc_spinlock` -/
+def inA : Pc → Bool
+  | .aRdIdx | .aRdCf _ | .aLdFi _ | .aWrCf _ _ _ | .aRdCf2 _ _ | .aRdPtr _ | .aWrIdx _ _ | .aUnlock _ => true
+  | _ => false
+
+/-- thread holds `free_spinlock` -/
+def inF : Pc → Bool
+  | .fRdFi _ | .fWrPtr _ _ | .fRdFi2 _ | .fStFi _ _ | .fUnlock => true
+  | _ => false
+
+/-- the value of `alloc_idx` the allocating thread has read -/
+def heldIdx : Pc → Option Nat
+  | .aRdCf x | .aLdFi x | .aWrCf x _ _ | .aRdCf2 x _ | .aRdPtr x | .aWrIdx x _ => some x
+  | _ => none
+
+/-- the block a thread is giving back -/
+def freeBlk : Pc → Option Nat
+  | .fLock b | .fYield b | .fRdFi b | .fWrPtr b _ | .fRdFi2 b | .fStFi b _ => some b
+  | _ => none
+
+/-- the part of the invariant about the shared data -/
+structure DataC (k c : Nat) (s : St) : Prop where
+  cap : s.cap = 2 ^ k
+  dbl : s.g.double = 0
+  spn : s.spuriousNull = 0
+  own : ∀ b, s.g.owned b = true ↔ s.loc b = .client
+  big : ∀ b, s.cap ≤ b → s.loc b = .pool
+  cnt : c = poolCount s
+  c1  : 1 ≤ c ∧ c ≤ s.cap
+  ia  : s.allocIdx < s.cap
+  fi  : s.freeIdx = if s.allocIdx + c < s.cap then s.allocIdx + c else s.allocIdx + c - s.cap
+  icf : s.cachedFree < s.cap ∧ dist s.cap s.allocIdx s.cachedFree ≤ c
+  vl  : ∀ j, j < s.cap → valid s.cap s.allocIdx c j → s.loc (s.ptrs j) = .pool ∧ s.ptrs j < s.cap
+  inj : ∀ j j', j < s.cap → j' < s.cap → valid s.cap s.allocIdx c j → valid s.cap s.allocIdx c j' →
+          s.ptrs j = s.ptrs j' → j = j'
+
+/-- the part of the invariant about the threads' program counters -/
+structure PcC (c : Nat) (s : St) : Prop where
+  aex : ∀ t t', inA (s.pc t) = true → inA (s.pc t') = true → t = t'
+  alk : s.alock = 0 → ∀ t, inA (s.pc t) = false
+  aix : ∀ t x, heldIdx (s.pc t) = some x → x = s.allocIdx
+  awc : ∀ t x f0 n, s.pc t = .aWrCf x f0 n →
+          f0 < s.cap ∧ dist s.cap s.allocIdx f0 ≤ c ∧ n = dist s.cap s.allocIdx f0
+  ar2s : ∀ t x n, s.pc t = .aRdCf2 x (some n) → n = dist s.cap s.allocIdx s.cachedFree
+  ar2n : ∀ t x, s.pc t = .aRdCf2 x none → nxt s.cap s.allocIdx ≠ s.cachedFree
+  arp : ∀ t x, s.pc t = .aRdPtr x → nxt s.cap s.allocIdx ≠ s.cachedFree
+  awi : ∀ t x b, s.pc t = .aWrIdx x b → nxt s.cap s.allocIdx ≠ s.cachedFree ∧ b = s.ptrs s.allocIdx
+  aul : ∀ t b, s.pc t = .aUnlock (some b) → s.loc b = .taken t
+  tk  : ∀ b t, s.loc b = .taken t → s.pc t = .aUnlock (some b)
+  fex : ∀ t t', inF (s.pc t) = true → inF (s.pc t') = true → t = t'
+  flk : s.flock = 0 → ∀ t, inF (s.pc t) = false
+  ffr : ∀ t b, freeBlk (s.pc t) = some b → s.loc b = .freeing t
+  ffr' : ∀ t b, s.loc b = .freeing t → freeBlk (s.pc t) = some b
+  fwp : ∀ t b f0, s.pc t = .fWrPtr b f0 → f0 = s.freeIdx
+  fr2 : ∀ t b, s.pc t = .fRdFi2 b → s.ptrs s.freeIdx = b
+  fst : ∀ t b v, s.pc t = .fStFi b v → s.ptrs s.freeIdx = b ∧ v = nxt s.cap s.freeIdx
+
+def Legal (s : St) : Prop := s.g.illegal = 0
+
+def Inv (k : Nat) (s : St) : Prop := Legal s → ∃ c, DataC k c s ∧ PcC c s
+
+theorem nextPc_not (rest : List Op) : inA (nextPc rest) = false ∧ inF (nextPc rest) = false ∧
+    heldIdx (nextPc rest) = none ∧ freeBlk (nextPc rest) = none ∧
+    (∀ b, nextPc rest ≠ .aUnlock b) := by
+  unfold nextPc; split <;> simp [inA, inF, heldIdx, freeBlk]
+
+theorem ringIdx_nxt {k C x : Nat} (h : C = 2 ^ k) (hx : x < C) : ringIdx (x + 1) C = nxt C x := by
+  subst h; rw [ringIdx_succ hx]; rfl
+
+theorem poolCount_same {s s' : St} (h1 : s'.cap = s.cap) (h2 : s'.loc = s.loc) : poolCount s' = poolCount s := by
+  unfold poolCount; rw [h1, h2]
+
+theorem poolCount_upd {s s' : St} {b : Nat} {v : Loc} (h1 : s'.cap = s.cap) (h2 : s'.loc = upd s.loc b v)
+    (hb : b < s.cap) :
+    poolCount s' + (if s.loc b = .pool then 1 else 0) = poolCount s + (if v = .pool then 1 else 0) := by
+  unfold poolCount; rw [h1, h2]
+  have := countP_range_upd (fun l : Loc => l == .pool) s.loc b v s.cap hb
+  simpa using this
+
+/-- `poolCount` as a function of the two fields it reads -/
+def poolCountOf (cap : Nat) (loc : Nat → Loc) : Nat := (List.range cap).countP fun b => loc b == .pool
+
+theorem poolCount_eq (s : St) : poolCount s = poolCountOf s.cap s.loc := rfl
+
+theorem poolCountOf_upd (cap : Nat) (loc : Nat → Loc) (b : Nat) (v : Loc) (hb : b < cap) :
+    poolCountOf cap (upd loc b v) + (if loc b = .pool then 1 else 0)
+      = poolCountOf cap loc + (if v = .pool then 1 else 0) := by
+  unfold poolCountOf
+  have := countP_range_upd (fun l : Loc => l == .pool) loc b v cap hb
+  simpa using this
+
+theorem poolCount_lt {s : St} {b : Nat} (hb : b < s.cap) (h : s.loc b ≠ .pool) : poolCount s < s.cap := by
+  unfold poolCount
+  exact countP_range_lt _ _ b hb (by simpa using h)
+
+/-- a step that leaves the shared data alone keeps `DataC` -/
+theorem DataC.frame {k c : Nat} {s s' : St} (d : DataC k c s) (h1 : s'.cap = s.cap)
+    (h2 : s'.g.double = s.g.double) (h3 : s'.spuriousNull = s.spuriousNull) (h4 : s'.g.owned = s.g.owned)
+    (h5 : s'.loc = s.loc) (h6 : s'.allocIdx = s.allocIdx) (h7 : s'.freeIdx = s.freeIdx)
+    (h8 : s'.cachedFree = s.cachedFree) (h9 : s'.ptrs = s.ptrs) : DataC k c s' := by
+  obtain ⟨d1, d2, d3, d4, d5, d6, d7, d8, d9, d10, d11, d12⟩ := d
+  constructor
+  · rw [h1]; exact d1
+  · rw [h2]; exact d2
+  · rw [h3]; exact d3
+  · rw [h4, h5]; exact d4
+  · rw [h1, h5]; exact d5
+  · rw [poolCount_same h1 h5]; exact d6
+  · rw [h1]; exact d7
+  · rw [h1, h6]; exact d8
+  · rw [h1, h6, h7]; exact d9
+  · rw [h1, h6, h8]; exact d10
+  · rw [h1, h5, h6, h9]; exact d11
+  · rw [h1, h6, h9]; exact d12
+
+/-- `free_idx` is a valid index -/
+theorem DataC.fi_lt {k c : Nat} {s : St} (d : DataC k c s) : s.freeIdx < s.cap := by
+  have h := d.fi; have := d.c1; have := d.ia
+  split at h <;> omega
+
+/-- `free_idx` is `c` slots after `alloc_idx` -/
+theorem DataC.dist_fi {k c : Nat} {s : St} (d : DataC k c s) : dist s.cap s.allocIdx s.freeIdx = c := by
+  have h := d.fi; have := d.c1; have := d.ia
+  unfold dist
+  split at h <;> split <;> omega
+
+theorem dist_nxt {C a : Nat} (ha : a < C) : dist C a (nxt C a) = 1 := by
+  have := ha
+  unfold dist nxt; split <;> split <;> omega
+
+/-- in a ring with `c < C` valid slots the slot at `free_idx` is not valid -/
+theorem DataC.fi_invalid {k c : Nat} {s : St} (d : DataC k c s) (hc : c < s.cap) :
+    ¬ valid s.cap s.allocIdx c s.freeIdx := by
+  have h := d.fi; have := d.c1; have := d.ia
+  unfold valid
+  split at h <;> omega
+
+theorem DataC.ai_valid {k c : Nat} {s : St} (d : DataC k c s) : valid s.cap s.allocIdx c s.allocIdx := by
+  have := d.c1; unfold valid; omega
+
+theorem dist_pos {C a x : Nat} (ha : a < C) : 1 ≤ dist C a x := by
+  unfold dist; split <;> omega
+
+theorem dist_le {C a x : Nat} (ha : a < C) (hx : x < C) : dist C a x ≤ C := by
+  unfold dist; split <;> omega
+
+theorem dist_eq_one {C a x : Nat} (ha : a < C) (hx : x < C) (h : dist C a x = 1) : x = nxt C a := by
+  unfold dist at h; unfold nxt; split at h <;> split <;> omega
+
+theorem dist_nxt_step {C a x : Nat} (ha : a < C) (hx : x < C) (h : x ≠ nxt C a) :
+    dist C (nxt C a) x + 1 = dist C a x := by
+  unfold nxt at h ⊢; unfold dist
+  split at h <;> split <;> split <;> (try split) <;> omega
+
+theorem nxt_lt {C a : Nat} (ha : a < C) : nxt C a < C := by
+  unfold nxt; split <;> omega
+
+/-- after handing out the slot at `a`, the remaining slots were valid before and are not `a` -/
+theorem valid_nxt {C a c j : Nat} (ha : a < C) (hc1 : 1 ≤ c) (hc : c ≤ C) (hj : j < C)
+    (h : valid C (nxt C a) (c - 1) j) : valid C a c j ∧ j ≠ a := by
+  unfold valid nxt at *
+  split at h <;> omega
+
+/-- `free_idx` after handing out one slot -/
+theorem fi_nxt {C a c f : Nat} (ha : a < C) (hc2 : 2 ≤ c) (hc : c ≤ C)
+    (h : f = if a + c < C then a + c else a + c - C) :
+    f = if nxt C a + (c - 1) < C then nxt C a + (c - 1) else nxt C a + (c - 1) - C := by
+  unfold nxt
+  split at h <;> split <;> split <;> omega
+
+/-- publishing one more slot: the new valid slot is the old `free_idx` -/
+theorem valid_succ {C a c f j : Nat} (ha : a < C) (hc1 : 1 ≤ c) (hc : c < C) (hj : j < C)
+    (hf : f = if a + c < C then a + c else a + c - C)
+    (h : valid C a (c + 1) j) : valid C a c j ∨ j = f := by
+  unfold valid at *
+  split at hf <;> omega
+
+theorem fi_succ {C a c f : Nat} (ha : a < C) (hc1 : 1 ≤ c) (hc : c < C)
+    (hf : f = if a + c < C then a + c else a + c - C) :
+    nxt C f = if a + (c + 1) < C then a + (c + 1) else a + (c + 1) - C := by
+  unfold nxt
+  split at hf <;> split <;> split <;> omega
+
+
+theorem heldIdx_inA {p : Pc} {x : Nat} (h : heldIdx p = some x) : inA p = true := by
+  cases p <;> simp_all [heldIdx, inA]
+
+/-- `DataC` when only `cached_free_pos` changes -/
+theorem DataC.frame_cf {k c : Nat} {s s' : St} (d : DataC k c s) (h1 : s'.cap = s.cap)
+    (h2 : s'.g.double = s.g.double) (h3 : s'.spuriousNull = s.spuriousNull) (h4 : s'.g.owned = s.g.owned)
+    (h5 : s'.loc = s.loc) (h6 : s'.allocIdx = s.allocIdx) (h7 : s'.freeIdx = s.freeIdx)
+    (h8 : s'.cachedFree < s.cap ∧ dist s.cap s.allocIdx s'.cachedFree ≤ c) (h9 : s'.ptrs = s.ptrs) :
+    DataC k c s' := by
+  obtain ⟨d1, d2, d3, d4, d5, d6, d7, d8, d9, d10, d11, d12⟩ := d
+  constructor
+  · rw [h1]; exact d1
+  · rw [h2]; exact d2
+  · rw [h3]; exact d3
+  · rw [h4, h5]; exact d4
+  · rw [h1, h5]; exact d5
+  · rw [poolCount_same h1 h5]; exact d6
+  · rw [h1]; exact d7
+  · rw [h1, h6]; exact d8
+  · rw [h1, h6, h7]; exact d9
+  · rw [h1, h6]; exact h8
+  · rw [h1, h5, h6, h9]; exact d11
+  · rw [h1, h6, h9]; exact d12
+
+end MgProof.C05.Ts
